@@ -67,8 +67,46 @@ func (g *G) strLit() *ast.Expr {
 	return ast.Str(g.R.Pick("a", "b", "x", "", "hello", "A", "B", "Start", "1", "true", "2.5"))
 }
 
+// boundary returns calls whose arguments sit on the edges of the guards of the built-ins: spans of exactly MaxInt64,
+// bounds at +-2^63 and their float64 neighbours, powers of ten beyond the table.
+func (g *G) boundary() *ast.Expr {
+	r := g.R
+	k := 1 + r.Intn(3)
+	hi := strconv.FormatUint(9223372036854775808-uint64(1024*k), 10) // 2^63 - 1024k: a float64, an int64
+	neg := func(n int) *ast.Expr { return ast.Neg(ast.Num(strconv.Itoa(n))) }
+	switch r.Intn(12) {
+	case 0:
+		return ast.Fn("random_range", neg(1024*k-1), ast.Num(hi)) // span exactly MaxInt64
+	case 1:
+		return ast.Fn("random_range", neg(1024*k-1+r.Intn(3)-1), ast.Num(hi)) // its neighbours
+	case 2:
+		return ast.Fn("random_range", ast.Neg(ast.Num("9223372036854775808")), ast.Num(hi)) // the span overflows
+	case 3:
+		return ast.Fn("random_range", ast.Num("0"), ast.Num(hi)) // huge but valid
+	case 4:
+		return ast.Fn("dice", ast.Num(r.Pick(hi, "9223372036854775808", "9223372036854775807", "18446744073709551616", "4294967296", "2147483648", "2147483647")))
+	case 5:
+		return ast.Fn("dice", ast.Bin("mul", ast.Num("1000000000000000000000"), ast.Num("1000000000000000000000")))
+	case 6:
+		return ast.Fn("round_places", ast.Num("1.5"), ast.Num(r.Pick("400", "309", "308", "22", "23", "32", "33")))
+	case 7:
+		return ast.Fn("round_places", ast.Num("1.5"), ast.Neg(ast.Num(r.Pick("400", "324", "323", "1", "32"))))
+	case 8:
+		return ast.Fn("round_places", ast.Num("1.5"), ast.Bin("div", ast.Num(r.Pick("0", "1")), ast.Num("0")))
+	case 9:
+		return ast.Fn("random_range", ast.Num(hi), ast.Num("9223372036854775808"))
+	case 10:
+		return ast.Fn("random_range", ast.Neg(ast.Num("9223372036854775808")), ast.Neg(ast.Num(hi)))
+	default:
+		return ast.Fn("dice", ast.Neg(ast.Num(r.Pick("1", "0.5", "9223372036854775808"))))
+	}
+}
+
 func (g *G) faulty() *ast.Expr {
 	r := g.R
+	if g.P.Numeric && r.Intn(5) == 0 {
+		return g.boundary()
+	}
 	switch r.Intn(14) {
 	case 0:
 		return ast.Var("nope")
